@@ -357,7 +357,7 @@ fn glob_exhaustive(pl: usize, tl: usize, seed: u64, keep: usize, sample: usize) 
                         let pch: Vec<char> = p.chars().collect();
                         let base = ((ci * chunk + pi) as u64) * texts.len() as u64;
                         for (ti, t) in texts.iter().enumerate() {
-                            let m = std::panic::catch_unwind(|| glob_match(p, t)).ok();
+                            let m = catch(|| glob_match(p, t)).ok();
                             let spec = gm_spec(&pch, &tchars[ti]);
                             if m != Some(spec) {
                                 dis += 1;
